@@ -98,4 +98,11 @@ theorem source_flip_failure_classes :
              ("except:Exception", "onOther"), ("raise:AmbiguousCommitError", "ambiguous"), ("raise", "reraise")] mmWriteHint
       = ["onCas", "conflict", "onOther", "ambiguous", "onOther", "reraise", "ambiguous"] := by decide
 
+/-- **source_rollback_is_best_effort** — the CURRENT `_rollback` deletes written files and markers each inside a catch-all:
+a failing cleanup never turns into a second exception that masks the commit's outcome. -/
+theorem source_rollback_is_best_effort :
+    project [("file_manager.storage.exists", "exists"), ("file_manager.storage.delete_file", "delete"),
+             ("except:Exception", "swallow"), ("raise", "reraise")] txRollback
+      = ["exists", "delete", "swallow", "delete", "swallow"] := by decide
+
 end DSV.Src.C04
